@@ -1,5 +1,5 @@
 CONSTANTS JCs = {1,2} Horizon = 14 Ids = {0,1,2,3} Windows <- W1 MaxMissed = 2 MaxDown = 3 MaxOps = 6 MaxLag = 3 MaxFaults = 2 MaxRestarts = 2 MaxTick = 4
-  Pols = {"Allow"} PreBoot = TRUE WithRecon = TRUE Workers = {1, 2} D = 45
+  Pols = {"Allow"} PreBoot = TRUE WithRecon = TRUE Workers = {1, 2} Relists = FALSE D = 45
 SPECIFICATION SSpec
 INVARIANT EmitDone
 CHECK_DEADLOCK FALSE
